@@ -254,20 +254,36 @@ if __name__ == "__main__":
 
 def wire_window_oracle(sc):
     """What the peer can see.  Connection: 65535 + sum WINDOW_UPDATE(0) written - flow-controlled bytes the peer sent
-    never exceeds the configured target at the moment a WINDOW_UPDATE is written (nor 2^31-1).  Streams: the same with
-    the largest SETTINGS_INITIAL_WINDOW_SIZE the endpoint has announced so far as the bound."""
+    never exceeds the configured target MINUS the bytes the application still holds (handed over by poll_data on a
+    receive handle that is still alive and not yet released: those cannot have been credited back, 'credited back
+    exactly once') at the moment a WINDOW_UPDATE is written (nor 2^31-1).  Streams: the same with the largest
+    SETTINGS_INITIAL_WINDOW_SIZE the endpoint has announced so far as the bound."""
     cfg = sc["cfg"]
     target = cfg.get("initial_connection_window_size") or 65535
     conn = 65535
     max_init = 65535
     streams = {}
+    held = {}          # handle -> bytes delivered and not yet released, while its RecvStream is alive
+    h_sid = {}
     for st in sc["trace"]:
         op = st["op"]
-        if op.get("op") == "set_target_window" and st["res"] == "ok":
+        name = op.get("op")
+        res = st.get("res")
+        if name == "set_target_window" and res == "ok":
             # a WINDOW_UPDATE may sit in the write buffer while the target is lowered: the bound is the largest
             # target that has been in force so far
             target = max(target, op.get("n", target))
-        if op.get("op") == "peer" and isinstance(op.get("what"), dict):
+        if name == "poll_data" and isinstance(res, dict) and "len" in res:
+            held[op["h"]] = held.get(op["h"], 0) + res["len"]
+        elif name == "release" and isinstance(res, dict) and res.get("ok"):
+            if op["h"] in held:
+                held[op["h"]] = max(0, held[op["h"]] - op.get("n", 0))
+        elif name in ("drop_recv", "conn_drop", "drop_conn"):
+            if name == "drop_recv":
+                held.pop(op.get("h"), None)
+            else:
+                held.clear()
+        if name == "peer" and isinstance(op.get("what"), dict):
             w = op["what"]
             if "chaos" in w:
                 return None          # illegal peer traffic: the connection is about to fail
@@ -286,8 +302,12 @@ def wire_window_oracle(sc):
             if f["t"] == "WINDOW_UPDATE":
                 if f["sid"] == 0:
                     conn += f["inc"]
+                    tot_held = sum(held.values())
                     if conn > max(target, 65535) or conn > 2**31 - 1:
                         return {"step": st["i"], "why": "connection window advertised beyond the configured target", "visible_window": conn, "target": target}
+                    if conn > max(target, 65535) - tot_held:
+                        return {"step": st["i"], "why": "connection window credited for bytes the application still holds (credited more than once)",
+                                "visible_window": conn, "target": target, "held_by_application": tot_held}
                 else:
                     streams[f["sid"]] = streams.get(f["sid"], max_init) + f["inc"]
                     if streams[f["sid"]] > max_init:
@@ -344,12 +364,25 @@ def recv_teardown(sc):
     return teardown_step(sc["trace"]) is not None
 
 
+def accounting_panic(sc):
+    """a panic of the library's window arithmetic (credit given back twice underflows the in-flight counters,
+    over-crediting overflows a window): the implementation side of C03_no_panic"""
+    import json as _json
+    for st in sc["trace"]:
+        r = st.get("res")
+        if isinstance(r, dict) and "panic" in r:
+            msg = str(r["panic"])
+            if any(w in msg for w in ("overflow", "window", "in_flight", "capacity", "available")):
+                return {"step": st["i"], "why": "the library panicked in its flow-control accounting", "panic": msg, "op": st["op"] if st["op"].get("op") != "peer" else st["op"].get("what")}
+    return None
+
+
 def oracle_recvflow(rep, scs):
     n_viol = 0
     nontriv = 0
     known = 0
     for sc in scs:
-        v = wire_window_oracle(sc)
+        v = wire_window_oracle(sc) or accounting_panic(sc)
         q, k = quiescence_oracle(sc)
         if any(f["t"] == "WINDOW_UPDATE" for st in sc["trace"] for f in st["out"]):
             nontriv += 1
